@@ -45,6 +45,27 @@ def generate():
         ("msgSetDefaultSupportedCommands", pb.SET_DEFAULT_SUPPORTED_COMMANDS_MESSAGE,
          "pb.SET_DEFAULT_SUPPORTED_COMMANDS_MESSAGE"),
     ]
+    # proto2 defaults: what reading an unset optional field yields (the handlers read these
+    # fields without HasField)
+    from pyatv.protocols.mrp.protobuf import PlaybackQueue_pb2
+
+    def default(msg, field):
+        f = msg.DESCRIPTOR.fields_by_name[field]
+        assert not f.is_repeated if hasattr(f, "is_repeated") else f.label != f.LABEL_REPEATED
+        return f.default_value
+
+    rows += [
+        ("defLocation", default(PlaybackQueue_pb2.PlaybackQueue, "location"), "default of PlaybackQueue.location"),
+        ("defCommand", default(CommandInfo_pb2.CommandInfo, "command"), "default of CommandInfo.command"),
+        ("defShuffleMode", default(CommandInfo_pb2.CommandInfo, "shuffleMode"), "default of CommandInfo.shuffleMode"),
+        ("defRepeatMode", default(CommandInfo_pb2.CommandInfo, "repeatMode"), "default of CommandInfo.repeatMode"),
+    ]
+    from pyatv.protocols.mrp.protobuf import NowPlayingClient_pb2, NowPlayingPlayer_pb2, ContentItem_pb2
+    for msg, field in ((NowPlayingClient_pb2.NowPlayingClient, "bundleIdentifier"),
+                       (NowPlayingClient_pb2.NowPlayingClient, "displayName"),
+                       (NowPlayingPlayer_pb2.NowPlayingPlayer, "identifier"),
+                       (ContentItem_pb2.ContentItem, "identifier")):
+        assert default(msg, field) == "", (msg, field)   # the model's identifier code 0
     out = ["namespace PyatvModel.Gen.C11\n"]
     out.append("/-- pyatv.protocols.mrp.player_state.DEFAULT_PLAYER_ID -/")
     out.append(f'def defaultPlayerId : String := "{player_state.DEFAULT_PLAYER_ID}"\n')
